@@ -33,6 +33,9 @@ def run_histories(ctx, quick, extra_args=(), sched=None):
                 stats[k] = int(v)
             except ValueError:
                 pass
+    if stats.get("blocks", 0) < nh * nb // 2:
+        # a history stops at the first block its reference replica refuses: a run that lost most of its blocks judges nothing
+        raise vlib.CheckError("the histories ended early: %s blocks of %d planned (%s)" % (stats.get("blocks"), nh * nb, last))
     return trace, stats, out
 
 
